@@ -413,16 +413,28 @@ func (u *Universe) zero(s *Sort) string {
 // prelude renders all declarations + axioms (to be placed before the facts of a query).
 func (u *Universe) prelude() string {
 	var b strings.Builder
-	for _, d := range u.decls {
+	nb := 8 // builtin declarations (sorts, string functions)
+	if nb > len(u.decls) {
+		nb = len(u.decls)
+	}
+	for _, d := range u.decls[:nb] {
 		b.WriteString(d)
 		b.WriteByte('\n')
 	}
-	// string literals
+	// string literal constants are declared before anything that may mention them
 	var names []string
 	for _, l := range u.litOrder {
 		n := u.lits[l]
 		names = append(names, n)
-		fmt.Fprintf(&b, "(declare-const %s Str)\n(assert (= (slen %s) %d))\n", n, n, len(l))
+		fmt.Fprintf(&b, "(declare-const %s Str)\n", n)
+	}
+	for _, d := range u.decls[nb:] {
+		b.WriteString(d)
+		b.WriteByte('\n')
+	}
+	for _, l := range u.litOrder {
+		n := u.lits[l]
+		fmt.Fprintf(&b, "(assert (= (slen %s) %d))\n", n, len(l))
 		if len(l) <= 24 {
 			for i := 0; i < len(l); i++ {
 				fmt.Fprintf(&b, "(assert (= (sat %s %d) %d))\n", n, i, l[i])
